@@ -3,7 +3,7 @@
    buffer and reported list. *)
 From Coq Require Import List NArith ZArith Bool Arith Lia Sorted.
 From YV Require Import Gen.PatConsts Pat.Syntax Pat.Sem Pat.Matcher Pat.MatcherProofs
-  Pat.Modifiers Pat.ModifiersProofs Pat.MatchList Pat.C01Check.
+  Pat.Modifiers Pat.ModifiersProofs Pat.MatchList Pat.Atoms Pat.Pipeline Pat.PipelineProofs Pat.C01Check.
 Import ListNotations.
 
 Lemma find_In : forall (A : Type) (f : A -> bool) l x, find f l = Some x -> In x l /\ f x = true.
@@ -146,3 +146,23 @@ Example scan_spec_example :
   scan_spec (PText [97; 98]%N (mkTM false false false false None None None))
             [97; 98; 32; 97; 98]%N None [(0, 2, None)]%N = false.
 Proof. vm_compute. split; reflexivity. Qed.
+
+(* ---- the K checks on the recorded hits / events give the hypotheses of the theorems - *)
+Lemma hit_mem_In : forall h l, hit_mem h l = true -> In h l.
+Proof.
+  intros h l H. unfold hit_mem in H. rewrite PipelineProofs.existsb_lazy_eq in H. apply existsb_exists in H.
+  destruct H as [x [Hx E]]. unfold hit_eqb in E. apply andb_true_iff in E. destruct E as [E1 E2].
+  apply Nat.eqb_eq in E1, E2. destruct h as [a b], x as [c e]. cbn [fst snd] in *. subst. exact Hx.
+Qed.
+
+(* hits_ok (evaluated on the REAL recorded hits in K streams (d) and (e)) implies the
+   hypothesis hits_exact of the pipeline and chain theorems *)
+Theorem hits_ok_exact : forall kernel atoms d hits, hits_ok kernel atoms d hits = true ->
+  PipelineProofs.hits_exact atoms d hits.
+Proof.
+  intros kernel atoms d hits H. unfold hits_ok in H. rewrite !andb_true_iff in H.
+  destruct H as [[[[_ H1] H2] _] _]. rewrite forallb_forall in H1, H2.
+  intros i pos. split.
+  - intro Hin. apply (PipelineProofs.all_hits_hits_exact atoms d). apply hit_mem_In. apply H1. exact Hin.
+  - intro Hex. apply hit_mem_In. apply H2. apply (PipelineProofs.all_hits_hits_exact atoms d). exact Hex.
+Qed.
